@@ -10,6 +10,9 @@
 #include "../../runtime/d_code.h"
 #include <algorithm>
 #include <charconv>
+#include <cmath>
+#include <cstdlib>
+#include <stdexcept>
 #include <sstream>
 
 using namespace std::string_literals;
@@ -122,7 +125,12 @@ void ::sqf::parser::sqf::parser::to_assembly(std::string_view contents, const ::
     {
         try
         {
-            auto inst = std::make_shared<::sqf::opcodes::push>(::sqf::runtime::value(std::make_shared<::sqf::types::d_scalar>((double)std::stod(std::string(node.token.contents)))));
+            // strtof rounds the decimal text once, to the nearest float. std::stod followed by the
+            // conversion to float rounded twice and rejected literals below the smallest normal double.
+            auto text = std::string(node.token.contents);
+            float number = std::strtof(text.c_str(), nullptr);
+            if (std::isinf(number)) { throw std::out_of_range(text); }
+            auto inst = std::make_shared<::sqf::opcodes::push>(::sqf::runtime::value(std::make_shared<::sqf::types::d_scalar>(number)));
             inst->diag_info({ node.token.line, node.token.column, node.token.offset, { *node.token.path, {} }, create_code_segment(contents, node.token.offset, node.token.contents.length()) });
             set.push_back(inst);
         }
